@@ -2,6 +2,10 @@ class FSError(Exception):
     pass
 
 
+class IllegalBackReference(ValueError):
+    """Too many backrefs ('..') in a path: it would refer outside the filesystem root."""
+
+
 class CreateFailed(FSError):
     pass
 
